@@ -19,7 +19,9 @@ func argKernelJobs(tier string, prefix string) []*Job {
 	if tier == "thorough" {
 		na = 5
 	}
-	return []*Job{
+	bc := f4Job("builtin-calls", "VerifBuiltinCalls", 0, []string{"ran"}, []string{"C07-call", "C08-call"},
+		"11 calls of real configured methods of the core configuration (Integer#+, String#+, String#*, Array#push/first/join/at, Integer#to_s, String#upcase/to_sym) whose receiver or argument is a leaf of solver-chosen kind, or a union of two solver-chosen kinds; the call's row must carry a diagnostic iff the call certainly fails and none iff it certainly fits")
+	return []*Job{bc,
 		{Name: "callArgs", Pkg: "ti/eval/method_evaluator", Entry: "VerifCallArgs", N: na, Budget: 600000,
 			Reach: []string{"called"}, Asserts: []string{"C07-args-misuse-accepted", "C08-args-fit-rejected"}, Replay: "kernel", Cross: true, Stubs: fmtStubs,
 			Bound: sprintf("checkAndPropagateArgs (check round) on a configured method with r<=2 required, o<=1 defaulted, optional *rest, p<=1 trailing, <=2 keywords (required/defaulted), declared kinds Integer/String, called with <=%d positionals of kinds Integer/String/NilClass, any subset of the declared keywords and optionally an undeclared one", na)},
@@ -33,10 +35,19 @@ func init() {
 	c07 := func(v *Violation) bool { return strings.HasPrefix(v.ID, "C07") || v.ID == "nopanic" || v.ID == "termination" }
 	c08 := func(v *Violation) bool { return strings.HasPrefix(v.ID, "C08") }
 	stubs := []string{"base.TypeToString, base.UnionTypeToString, TypeToStringForSignature, makeTypeError, makeDefineArgumentInfo: replaced by opaque strings/errors in kernel jobs (the oracle never reads the message text)"}
-	register(&Property{ID: "C07", Jobs: func(t string) []*Job { return argKernelJobs(t, "C07") }, Filter: c07, Stubs: stubs,
+	register(&Property{ID: "C07", Jobs: func(t string) []*Job { return argKernelJobs(t, "C07") }, Filter: c07, Stubs: stubs, Custom: replayCallsOrKernel,
 		Functions: []string{"ti/eval/method_evaluator.checkArgType", "(*ti/base.T).IsMatchType", "(*ti/base.T).IsMatchUnionType", "ti/eval/method_evaluator.checkAndPropagateArgs"},
 		Outside:   "unions of more than 3 variants, more than 5 arguments, subclass-compatible object arguments, user-defined callees (C15)"})
-	register(&Property{ID: "C08", Jobs: func(t string) []*Job { return argKernelJobs(t, "C08") }, Filter: c08, Stubs: stubs,
+	register(&Property{ID: "C08", Jobs: func(t string) []*Job { return argKernelJobs(t, "C08") }, Filter: c08, Stubs: stubs, Custom: replayCallsOrKernel,
 		Functions: []string{"ti/eval/method_evaluator.checkArgType", "(*ti/base.T).IsMatchType", "(*ti/base.T).IsMatchUnionType", "ti/eval/method_evaluator.checkAndPropagateArgs"},
 		Outside:   "unions of more than 3 variants, more than 5 arguments, subclass-compatible object arguments, user-defined callees (C15)"})
+}
+
+// replayCallsOrKernel: program-level builtin-call counterexamples are re-judged on the native
+// binary; kernel counterexamples fall through to the generic kernel replay.
+func replayCallsOrKernel(n *Native, job *Job, v *Violation) (ReplayResult, bool) {
+	if job.Replay == "kernel" {
+		return ReplayResult{}, false
+	}
+	return replayCovers(n, job, v)
 }
